@@ -642,7 +642,7 @@ theorem aspaBase_nil (s : AspaDefs) : aspaBase s [] = s := by
   unfold aspaBase
   induction s with
   | nil => rfl
-  | cons x rest ih => simp [List.filter_cons]
+  | cons x rest _ => simp
 
 theorem aspaBase_snoc (s : AspaDefs) (before : List Nat) (c : Nat) :
     aspaBase s (before ++ [c]) = (aspaBase s before).remove c := by
@@ -771,7 +771,7 @@ theorem bgpsecBase_nil (s : BgpsecDefs) : bgpsecBase s [] = s := by
   unfold bgpsecBase
   induction s with
   | nil => rfl
-  | cons x rest ih => simp [List.filter_cons]
+  | cons x rest _ => simp
 
 theorem bgpsecBase_snoc (s : BgpsecDefs) (before : List BgpsecKey) (k : BgpsecKey) :
     bgpsecBase s (before ++ [k]) = (bgpsecBase s before).remove k := by
